@@ -46,6 +46,25 @@ func (sc *Scope) evalAssignItem(cl *Clause) (*assignItem, error) {
 		}
 		it.ref = lv.Ref
 	}
+	switch {
+	case e.Op == "call" && e.Name == "file" && len(e.Args) == 1:
+		x := sc.eval(e.Args[0])
+		if sc.err != nil {
+			return nil, sc.err
+		}
+		if x.v == nil || len(x.v.L) == 0 {
+			return nil, fmt.Errorf("assigns %s: not a reader/writer value", cl.Src)
+		}
+		ref := x.v.L[0]
+		if isInterface(x.v.T) {
+			ref = x.v.L[1]
+		}
+		it.comps["FILE"] = fileCompSort()
+		it.leaf["FILE"] = SArr(SIdx, SBV(8))
+		it.ref = ref
+		it.onResult = false
+		return it, nil
+	}
 	switch e.Op {
 	case "elems":
 		x := sc.eval(e.Args[0])
@@ -178,5 +197,83 @@ func (fr *frame) applyAssigns(items []*assignItem) {
 			fr.cur.mem.m[c] = ft.c.Define("m$"+c, mkStore(arr, it.ref, nv))
 			fr.checkLoopMod(c)
 		}
+	}
+}
+
+// ---------------------------------------------------------------------------
+// Fail-stop ghost state (property C17): for every call that can fail, a ghost flag records "this call failed on
+// the current path". At every return of a function whose last result is an error, a raised flag obliges the
+// returned error to be non-nil; a raised flag may not be carried around a loop back edge (the classic
+// `if err != nil { continue }`).
+
+func failSort() string { return SArr(SInt, SBool) }
+
+func (fr *frame) failFlagGet(mem *Mem, site string) Term {
+	if mem == nil {
+		return tFalse
+	}
+	if t, ok := mem.m["$F:"+site]; ok {
+		return mkSelect(t, intConst(0))
+	}
+	return tFalse
+}
+
+func (fr *frame) failFlagRaise(site string, cond Term) {
+	ft := fr.ft
+	if !ft.kinds["failstop"] {
+		return
+	}
+	cur := fr.failFlagGet(fr.cur.mem, site)
+	nv := ft.c.Define("fail", mkOr(cur, cond))
+	fr.cur.mem.m["$F:"+site] = ft.c.Define("m$F", mkStore(constArr(failSort(), tFalse), intConst(0), nv))
+}
+
+// noteFailure registers the failure condition of a call site.
+func (fr *frame) noteFailure(text string, pos token.Pos, cond Term) {
+	ft := fr.ft
+	if !ft.kinds["failstop"] || cond.T == "false" {
+		return
+	}
+	if ft.failText == nil {
+		ft.failText = map[string]string{}
+	}
+	base := text
+	if fr.inl != "" {
+		base = fr.inl + "/" + text
+	}
+	k := ft.names["$F:"+base]
+	ft.names["$F:"+base] = k + 1
+	site := fmt.Sprintf("%s#%d", base, k)
+	ft.failSites = append(ft.failSites, site)
+	ft.failText[site] = base
+	fr.failFlagRaise(site, cond)
+}
+
+// failstopAtReturn: obligations at a return site of the function under verification.
+func (fr *frame) failstopAtReturn(rs retSite, errNonNil Term) {
+	ft := fr.ft
+	for _, site := range ft.failSites {
+		fl := fr.failFlagGet(rs.mem, site)
+		if fl.T == "false" {
+			continue
+		}
+		fr.obligeAt(mkAnd(rs.pc, fl), "failstop", ft.failText[site], rs.pos, errNonNil)
+	}
+}
+
+// failstopAtBackEdge: a failure may not be carried into the next loop iteration.
+func (fr *frame) failstopAtBackEdge(hyp Term, mem *Mem, li *loopInfo, pos token.Pos) {
+	ft := fr.ft
+	if !ft.kinds["failstop"] {
+		return
+	}
+	for _, site := range ft.failSites {
+		fl := fr.failFlagGet(mem, site)
+		if fl.T == "false" {
+			continue
+		}
+		// only flags raised inside this loop iteration matter: the flag value at the loop head is the entry value
+		hd := fr.failFlagGet(fr.loopEntryMem[li], site)
+		fr.obligeAt(mkAnd(hyp, mkNot(hd)), "failstop", ft.failText[site]+" (error ignored, loop continues)", pos, mkNot(fl))
 	}
 }
